@@ -172,19 +172,42 @@ def disjuncts(t):
     return [t]
 
 
-def if_chain(s):
-    """[(test or None, body)] of an if/elif/else statement."""
+def if_chain(s, extend=True, nodes=False):
+    """[(test or None, body)] of an if/elif/else statement. After else-elimination (sa/normal.py) a chain of returning branches is a
+    run of sibling `if`s: when every branch so far always terminates, the following sibling `if`s continue the chain and whatever
+    follows them is the else-branch (so `if a: return x` / `if b: return y` / `return z` reads as if/elif/else)."""
+    from .normal import terminates
     chain = []
     cur = s
+    all_term = True
     while True:
-        chain.append((cur.test, cur.body))
+        chain.append((cur.test, cur.body, cur) if nodes else (cur.test, cur.body))
+        all_term = all_term and terminates(cur.body)
         if len(cur.orelse) == 1 and isinstance(cur.orelse[0], ast.If):
             cur = cur.orelse[0]
-        else:
-            if cur.orelse:
-                chain.append((None, cur.orelse))
+            continue
+        if cur.orelse:
+            chain.append((None, cur.orelse, None) if nodes else (None, cur.orelse))
             break
+        nxt = getattr(cur, '_next', None)
+        if extend and all_term and nxt:
+            if isinstance(nxt[0], ast.If):
+                cur = nxt[0]
+                continue
+            chain.append((None, nxt, None) if nodes else (None, nxt))
+        break
     return chain
+
+
+def else_of(s):
+    """the statements executed when the test of `if` statement s is false: its else-branch, or (after else-elimination, when the body
+    always terminates) the statements that follow it in its block"""
+    from .normal import terminates
+    if s.orelse:
+        return s.orelse
+    if terminates(s.body):
+        return list(getattr(s, '_next', None) or [])
+    return []
 
 
 def ifexp_chain(e):
